@@ -853,6 +853,11 @@ func (fx *fexec) unop(x *ssa.UnOp, st *State) Val {
 	case token.NOT:
 		return Val{Ty: rt, T: not(v.T)}
 	case token.MUL:
+		if g, isGlobal := x.X.(*ssa.Global); isGlobal {
+			if gv, ok := fx.loadGlobal(g); ok {
+				return gv
+			}
+		}
 		if v.Loc == nil {
 			if _, isAlloc := x.X.(*ssa.Alloc); !isAlloc {
 				if _, isGlobal := x.X.(*ssa.Global); !isGlobal {
